@@ -131,9 +131,53 @@ def sweep_doc(codec, indent, le, t, via):
     return {'encoding': codec if via == 'main' else 'utf-8', 'changes': [ch]}
 
 
+def special_docs():
+    """Documents built around exact sizes: content of about 1 MiB / 3 MiB
+    (block-wise I/O), very large indents, first lines around 1 KiB / 4 KiB /
+    8 KiB / 64 KiB (scan limits), with and without a final newline."""
+    out = []
+
+    def doc(pre=None, diff=None, enc='utf-8'):
+        f = {'encoding': None, 'meta': {'obj': {'k': 'v'}, 'encoding': None}}
+        if diff is not None:
+            f['diff'] = {'data': diff, 'encoding': None, 'line_endings': None,
+                         'type': None}
+        ch = {'encoding': None, 'files': [f, {'encoding': None, 'meta': {
+            'obj': {'after': 1}, 'encoding': None}}]}
+        if pre is not None:
+            ch['preamble'] = dict({'encoding': None, 'line_endings': None,
+                                   'mimetype': None, 'explicit': True}, **pre)
+        return {'encoding': enc, 'changes': [ch]}
+    M = 1 << 20
+    for size in (M - 1, M, M + 1, M + 12345, 3 * M + 7):
+        for tail in (b'\n', b''):
+            body = (b'+' + b'x' * 70 + b'\n') * (size // 72 + 1)
+            out.append(doc(diff=body[:size - len(tail) - 1] + b'y' + tail))
+        line = b'-' + b'L' * (size - 2)
+        out.append(doc(diff=line + b'\n'))           # one line of ~1 MiB
+        txt = ('p' * 63 + '\n') * (size // 64)
+        out.append(doc(pre={'text': txt[:size - 1] + 'z', 'indent': 0}))
+        out.append(doc(pre={'text': txt[:size // 8], 'indent': 3}))
+    for indent in (255, 256, 1023, 1024, 4095, 4096, 65535, 65536, 70001):
+        for enc in ('utf-8', 'utf-16'):
+            out.append(doc(pre={'text': 'a\n  b\n', 'indent': indent},
+                           enc=enc))
+    for n in (1022, 1023, 1024, 1025, 4094, 4095, 4096, 4097, 8190, 8191,
+              8192, 8193, 65535, 65536, 65537):
+        for nl in ('\r\n', '\n'):
+            t = 'F' * n + nl + 'second' + nl + 'third'
+            out.append(doc(pre={'text': t, 'indent': 4}))
+            out.append(doc(diff=t.encode()))
+            out.append(doc(pre={'text': t, 'indent': 0}, enc='utf-16'))
+    return out
+
+
 def run(ctx):
     obs = ctx.obs
     rng = ctx.rng
+    for i, d in enumerate(special_docs()):
+        if ctx.mine(i):
+            check_case(d, obs, 'special_sizes')
     # systematic sweep (deterministic, sharded)
     sw = sweep_cases()
     vias = ('own', 'change', 'main')
